@@ -6,10 +6,13 @@ mod util;
 mod p_merge;
 mod p_refs;
 mod p_matchers;
+#[cfg(feature = "git")]
 mod p_gitrefs;
 mod p_diff;
 mod p_chash;
+#[cfg(feature = "cli")]
 mod p_text;
+#[cfg(feature = "repo")]
 mod p_repo;
 mod p_tables;
 
@@ -24,13 +27,16 @@ fn main() {
         "C01" | "C02" => p_merge::run(pid, func, replay, seed),
         "C12" | "C13" => p_refs::run(pid, func, replay, seed),
         "C30" | "C31" => p_matchers::run(pid, func, replay, seed),
+        #[cfg(feature = "git")]
         "C33" => p_gitrefs::run(pid, func, replay, seed),
         "C03" | "C04" => p_diff::run(pid, func, replay, seed),
         "C16" => p_chash::run(pid, func, replay, seed),
+        #[cfg(feature = "cli")]
         "C44" => p_text::run(pid, func, replay, seed),
+        #[cfg(feature = "repo")]
         "C18" | "C10" | "C19" | "C20" | "C11" => p_repo::run(pid, func, replay, seed),
         "C21" => p_tables::run(pid, func, replay, seed),
-        _ => util::none(&format!("no executable contract registered for {pid}")),
+        _ => util::none(&format!("no executable contract for {pid} in this build (features: git={}, cli={}, repo={})", cfg!(feature = "git"), cfg!(feature = "cli"), cfg!(feature = "repo"))),
     };
     println!("{}", r);
 }
